@@ -371,6 +371,9 @@ Proof.
   rewrite !modexp_modexp by (try assumption; exact rfc_pos). f_equal. ring.
 Qed.
 
+Lemma some_inj {A} (x y : A) : Some x = Some y -> x = y.
+Proof. intros H. inversion H. reflexivity. Qed.
+
 (* two parties: A has (privA), B has (privB); each publishes generate_pub and computes with the
    other's public value; whatever the four blinding values and prior buffer contents, the keys
    are equal *)
@@ -386,7 +389,7 @@ Theorem agreement pubA0 pubB0 keyA0 keyB0 privA privB bA bB bA' bB' pubA pubB :
 Proof.
   intros HlA0 HlB0 HkA0 HkB0 HpA HlA HpB HlB HbA HbB HbA' HbB' EA EB.
   rewrite generate_pub_correct in EA, EB by assumption.
-  injection EA as <-. injection EB as <-.
+  apply some_inj in EA. apply some_inj in EB. subst pubA pubB.
   pose proof (be_decode_bound privA HpA) as [HA0 _]. pose proof (be_decode_bound privB HpB) as [HB0 _].
   assert (SA : 0 <= dh_pub_spec (be_decode privA) < rfc3526_group14)
     by (apply Z.mod_pos_bound; exact rfc_pos).
@@ -417,7 +420,7 @@ Qed.
 Example blinded_modexp_instance :
   let priv := be_encode 32 5 in let bl := be_encode 32 7 in
   length (repeat 170%N 256) = 256%nat /\ bytes_ok priv /\ length priv = 32%nat /\ bytes_ok bl.
-Proof. repeat split; try apply be_encode_bytes_ok; try apply be_encode_length. apply repeat_length. Qed.
+Proof. repeat split; try apply be_encode_bytes_ok; try apply be_encode_length. Qed.
 
 Example sanitycheck_instances :
   dh_sanitycheck repo_params (be_encode 256 (rfc3526_group14 - 1)) = 0 /\
